@@ -297,6 +297,8 @@ struct Rw<'a> {
     tmp: usize,
     err: Option<String>,
     no_ufcs: bool,
+    after_pats: Vec<String>,   // squashed statement texts after which an `after["..."]` anchor is placed
+    after_hits: Vec<usize>,    // how often each pattern matched
 }
 
 fn is_cfg(a: &Attribute) -> bool {
@@ -528,8 +530,17 @@ impl<'a> VisitMut for Rw<'a> {
             if let Some(k) = loop_id {
                 out.push(marker("__vx_loop_before", Some(k)));
             }
+            let stmt_text = if self.after_pats.is_empty() { String::new() } else { squash(&s.to_token_stream().to_string()) };
             self.visit_stmt_mut(&mut s);
             out.push(s);
+            for (pi, pat) in self.after_pats.clone().iter().enumerate() {
+                if *pat == stmt_text {
+                    self.after_hits[pi] += 1;
+                    if self.after_hits[pi] == 1 {
+                        out.push(marker("__vx_after", Some(pi)));
+                    }
+                }
+            }
             if let Some(k) = loop_id {
                 out.push(marker("__vx_loop_after", Some(k)));
             }
@@ -758,7 +769,9 @@ fn gen_unit(ctx: &mut Ctx, u: &UnitSpec, report: &mut Vec<serde_json::Value>) ->
     };
     let sha = format!("{:x}", Sha256::digest(orig_tokens.as_bytes()));
 
-    let mut rw = Rw { ctx, log: &mut log, loops: 0, tmp: 0, err: None, no_ufcs: u.no_ufcs };
+    let after_pats: Vec<String> = u.anchors.keys().filter_map(|k| k.strip_prefix("after[\"").and_then(|r| r.strip_suffix("\"]")).map(|p| squash(p))).collect();
+    let n_after = after_pats.len();
+    let mut rw = Rw { ctx, log: &mut log, loops: 0, tmp: 0, err: None, no_ufcs: u.no_ufcs, after_pats, after_hits: vec![0; n_after] };
     // fn-level attributes
     match rw.strip_attrs(&mut fp.attrs, "fn") {
         Ok(true) => {},
@@ -781,10 +794,12 @@ fn gen_unit(ctx: &mut Ctx, u: &UnitSpec, report: &mut Vec<serde_json::Value>) ->
     }
     // R10: `mut self` (by value) => `self` + `let mut vx_self = self;`, uses renamed (binding mutability only)
     let mut_self = matches!(fp.sig.inputs.first(), Some(syn::FnArg::Receiver(r)) if r.reference.is_none() && r.mutability.is_some());
-    if mut_self && !u.external_body {
+    if mut_self {
         if let Some(syn::FnArg::Receiver(r)) = fp.sig.inputs.first_mut() {
             r.mutability = None;
         }
+    }
+    if mut_self && !u.external_body {
         struct SelfRename;
         impl VisitMut for SelfRename {
             fn visit_ident_mut(&mut self, i: &mut syn::Ident) {
@@ -799,6 +814,8 @@ fn gen_unit(ctx: &mut Ctx, u: &UnitSpec, report: &mut Vec<serde_json::Value>) ->
         rw.log.add("R10", "mut-self", "`mut self` => `self` + `let mut vx_self = self;`".into());
     }
     let nloops = rw.loops;
+    let after_pats_final = rw.after_pats.clone();
+    let after_hits_final = rw.after_hits.clone();
     if let Some(e) = rw.err.take() {
         die(&format!("unsupported-construct in {}: {e}", u.name));
     }
@@ -931,8 +948,16 @@ fn gen_unit(ctx: &mut Ctx, u: &UnitSpec, report: &mut Vec<serde_json::Value>) ->
         let bf = u.anchors.get(&format!("loop[{k}].before")).cloned().unwrap_or_default();
         text = text.replace(&format!("__vx_loop_before!({k});"), bf.trim_end());
     }
+    for (pi, pat) in after_pats_final.iter().enumerate() {
+        if after_hits_final[pi] != 1 {
+            die(&format!("anchor-lost: unit {} `after[..]` pattern `{}` matched {} statements (need exactly 1)", u.name, pat, after_hits_final[pi]));
+        }
+        let key = u.anchors.keys().find(|k| k.strip_prefix("after[\"").and_then(|r| r.strip_suffix("\"]")).map(|p| squash(p) == *pat).unwrap_or(false)).unwrap().clone();
+        text = text.replace(&format!("__vx_after!({pi});"), u.anchors[&key].trim_end());
+    }
     for key in u.anchors.keys() {
         let ok = key == "fn.begin"
+            || key.starts_with("after[")
             || key == "fn.end"
             || (0..nloops).any(|k| {
                 [format!("loop[{k}].inv"), format!("loop[{k}].begin"), format!("loop[{k}].end"), format!("loop[{k}].after"), format!("loop[{k}].before")].contains(key)
@@ -1004,7 +1029,7 @@ fn gen_item(ctx: &mut Ctx, file: &str, sel: &str, report: &mut Vec<serde_json::V
     for d in dropped {
         log.add("R1", "drop-attr", d);
     }
-    let mut rw = Rw { ctx, log: &mut log, loops: 0, tmp: 0, err: None, no_ufcs: false };
+    let mut rw = Rw { ctx, log: &mut log, loops: 0, tmp: 0, err: None, no_ufcs: false, after_pats: vec![], after_hits: vec![] };
     rw.visit_item_mut(&mut it);
     let toks = it.to_token_stream().to_string();
     let sha = format!("{:x}", Sha256::digest(toks.as_bytes()));
